@@ -34,10 +34,10 @@ def read(repo, rel):
         die(f"cannot read {p}: {e}")
 
 
-def strip_tests_and_comments(src):
+def strip_tests_and_comments(src, tests=True):
     # drop everything from the first `#[cfg(test)]` / `#[test]` on (test modules sit at the end of each file)
     m = re.search(r"^#\[(cfg\(test\)|test)\]", src, flags=re.M)
-    if m:
+    if m and tests:
         src = src[:m.start()]
     out = []
     i, n = 0, len(src)
@@ -330,11 +330,223 @@ def unicode_digest():
     return n, "%016x" % h
 
 
+# --------------------------------------------------------------------------- repetition sites and recursion (C16)
+# Which combinator carries each repetition, and which parser functions can re-enter themselves.  The stack half of C16
+# rests on: every repetition is one of nom's loop combinators (stack use independent of the number of iterations) and the
+# only native recursion is Ty::parse <-> Type::parse and ConstValue::parse (bounded by the nesting).  Nothing here is
+# expected: the inventory is emitted as found, fam/idl/coq/Proofs/RepSites.v proves it equal to the inventory computed
+# from the model's definitions (Parser.v) -- a repetition rewritten as self-recursion changes both tables.
+
+REP_COMBINATORS = {   # nom 7 combinators that apply a sub-parser repeatedly: name -> file of nom's source that defines it
+    "many0": "multi/mod.rs", "many1": "multi/mod.rs", "many_till": "multi/mod.rs", "many_m_n": "multi/mod.rs",
+    "many0_count": "multi/mod.rs", "many1_count": "multi/mod.rs", "count": "multi/mod.rs", "fill": "multi/mod.rs",
+    "fold_many0": "multi/mod.rs", "fold_many1": "multi/mod.rs", "fold_many_m_n": "multi/mod.rs",
+    "separated_list0": "multi/mod.rs", "separated_list1": "multi/mod.rs", "length_count": "multi/mod.rs",
+    "escaped": "bytes/complete.rs", "escaped_transform": "bytes/complete.rs",
+}
+
+
+def _skip_literal(src, i):
+    """index after the string / raw string / char literal starting at i, or None if there is none"""
+    n = len(src)
+    c = src[i]
+    if c == '"':
+        j = i + 1
+        while j < n and src[j] != '"':
+            j += 2 if src[j] == "\\" else 1
+        return j + 1
+    if src.startswith('r#"', i):
+        return src.index('"#', i + 3) + 2
+    if c == "'" and i + 2 < n and (src[i + 2] == "'" or (src[i + 1] == "\\" and i + 3 < n and src[i + 3] == "'")):
+        return i + (3 if src[i + 1] != "\\" else 4)
+    return None
+
+
+def blocks(src):
+    """the `{ ... }` blocks at brace depth 0 of src: [(header, body)], header = the text between the end of the previous
+    block (or the last `;` at depth 0) and the opening brace; braces inside literals are skipped"""
+    out, i, n, depth, hstart, bstart = [], 0, len(src), 0, 0, 0
+    while i < n:
+        j = _skip_literal(src, i)
+        if j is not None:
+            i = j
+            continue
+        c = src[i]
+        if c == "{":
+            if depth == 0:
+                header, bstart = src[hstart:i], i + 1
+            depth += 1
+        elif c == "}":
+            depth -= 1
+            if depth < 0:
+                die("unbalanced braces")
+            if depth == 0:
+                out.append((header.strip(), src[bstart:i]))
+                hstart = i + 1
+        elif c == ";" and depth == 0:
+            hstart = i + 1
+        i += 1
+    if depth != 0:
+        die("unbalanced braces")
+    return out
+
+
+def parser_functions(repo):
+    """{function name: (file, body text)} of every function of the parser files (tests stripped), `X::parse` for
+    `impl Parser for X`, the bare name for a free fn, `name!` for a top-level macro that defines functions; and
+    {alias: function} for the functions a macro invocation defines"""
+    fns, alias, order = {}, {}, []
+    for fn in sorted(SHAPES):
+        src = strip_tests_and_comments(read(repo, os.path.join(PARSER_DIR, fn)))
+        for header, body in blocks(src):
+            h = re.sub(r"#\[[^\]]*\]", "", header).strip()
+            m = re.match(r"impl\s+Parser\s+for\s+(\w+)$", h)
+            if m:
+                inner = blocks(body)
+                if len(inner) != 1 or not re.match(r"fn\s+parse\s*\(", inner[0][0]):
+                    die(f"{fn}: impl Parser for {m.group(1)}: expected exactly `fn parse`")
+                name = m.group(1) + "::parse"
+                body = inner[0][1]
+            elif re.match(r"(pub(\([a-z]+\))?\s+)?fn\s+(\w+)\s*[<(]", h):
+                name = re.match(r"(pub(\([a-z]+\))?\s+)?fn\s+(\w+)", h).group(3)
+            elif re.match(r"macro_rules!\s*(\w+)$", h):
+                mac = re.match(r"macro_rules!\s*(\w+)$", h).group(1)
+                name = mac + "!"
+                for a in re.findall(r"^\s*" + mac + r"!\(\s*(\w+)\s*,", src, flags=re.M):
+                    alias[a] = name
+            elif re.match(r"(pub\s+)?use\b", h) or re.match(r"(pub(\([a-z]+\))?\s+)?trait\s+Parser\b", h):
+                continue
+            else:
+                die(f"{fn}: top-level block not understood: `{h[:80]}`")
+            if name in fns:
+                die(f"duplicate parser function {name}")
+            fns[name] = (fn, body)
+            order.append(name)
+    return fns, alias, order
+
+
+def rep_inventory(repo):
+    """([(function, [(combinator, count)])] for every parser function, [functions that can call themselves])"""
+    fns, alias, order = parser_functions(repo)
+    types = {n[:-7] for n in fns if n.endswith("::parse")}
+    free = {n for n in fns if "::" not in n and not n.endswith("!")}
+    table, calls = [], {}
+    for name in order:
+        body = fns[name][1]
+        # strip literals: a combinator / function name inside a string is not a call
+        out, i = [], 0
+        while i < len(body):
+            j = _skip_literal(body, i)
+            if j is not None:
+                out.append('""'); i = j
+            else:
+                out.append(body[i]); i += 1
+        code = "".join(out)
+        cnt = {}
+        for m in re.finditer(r"\b(\w+)\s*(?:::<[^()]*>)?\s*\(", code):
+            if m.group(1) in REP_COMBINATORS:
+                cnt[m.group(1)] = cnt.get(m.group(1), 0) + 1
+        # a combinator mentioned without being called (passed as a value, renamed by `use .. as`) is not understood
+        for c in REP_COMBINATORS:
+            if len(re.findall(r"\b%s\b" % c, code)) != cnt.get(c, 0):
+                die(f"{name}: `{c}` is mentioned other than as a direct call")
+        table.append((name, sorted(cnt.items())))
+        cs = set()
+        for m in re.finditer(r"(?<![\w$])(\w+)::parse\b", code):
+            t = m.group(1)
+            if t == "Self":
+                t = name[:-7] if name.endswith("::parse") else die(f"{name}: Self::parse outside an impl")
+            if t in types:
+                cs.add(t + "::parse")
+            else:
+                die(f"{name}: call of {t}::parse, which is not a parser of these files")
+        if re.search(r"\$\w+\s*::\s*parse\b", code):
+            # a local macro that calls `$x::parse`: its invocations name the callee
+            for mm in re.finditer(r"macro_rules!\s*(\w+)", code):
+                for t in re.findall(r"\b%s!\(\s*(\w+)\s*\)" % mm.group(1), code):
+                    if t not in types:
+                        die(f"{name}: {mm.group(1)}!({t}): not a parser of these files")
+                    cs.add(t + "::parse")
+        if re.search(r"<\s*\w+\s+as\s+Parser\s*>|\bParser::parse\b|\bT::parse\b", code):
+            die(f"{name}: indirect parser call not understood")
+        for f in free:
+            if re.search(r"(?<![\w:.])%s\b(?!\s*!)" % f, code):
+                cs.add(f)
+        for a, target in alias.items():
+            if re.search(r"(?<![\w:.])%s\b" % a, code):
+                cs.add(target)
+        calls[name] = cs
+    # functions that can reach themselves
+    def reach(a):
+        seen, todo = set(), list(calls[a])
+        while todo:
+            x = todo.pop()
+            if x not in seen:
+                seen.add(x)
+                todo += calls[x]
+        return seen
+    rec = sorted(n for n in order if n in reach(n))
+    return table, rec, calls
+
+
+def nom_loops(repo, used):
+    """[(combinator, True iff its body in the nom source named by Cargo.lock is a `loop` / `for` / `while` and does not
+    call itself)] for the combinators the parser uses"""
+    lock = read(repo, "Cargo.lock")
+    m = re.search(r'name = "nom"\nversion = "([^"]+)"', lock)
+    if not m:
+        die("nom not in Cargo.lock")
+    import glob
+    roots = sorted(glob.glob(os.path.expanduser("~/.cargo/registry/src/*/nom-" + m.group(1))))
+    if not roots:
+        die(f"source of nom {m.group(1)} not found under ~/.cargo/registry/src")
+    out = []
+    for c in used:
+        src = strip_tests_and_comments(open(os.path.join(roots[0], "src", REP_COMBINATORS[c]), encoding="utf-8").read(), tests=False)
+        body = None
+        for header, b in blocks(src):
+            if re.search(r"\bpub fn %s\s*<" % c, header):
+                body = b
+        if body is None:
+            die(f"nom {m.group(1)}: pub fn {c} not found")
+        it = bool(re.search(r"\b(loop|while|for)\b", body)) and not re.search(r"\b%s\s*(::<[^()]*>)?\s*\(" % c, body)
+        out.append((c, it))
+    return m.group(1), out
+
+
+def coq_str(s):
+    return '"' + s.replace('"', '""') + '"'
+
+
+def gen_reps(repo):
+    table, rec, calls = rep_inventory(repo)
+    used = sorted({c for _, cs in table for c, _ in cs})
+    ver, loops = nom_loops(repo, used)
+    out = ["(* GENERATED by tools/extract_idl.py from pilota-thrift-parser/src/parser/*.rs and the source of nom " + ver,
+           "   -- do not edit.  src_rep_sites: for every function of the parser files, the nom combinators that apply a",
+           "   sub-parser repeatedly and how often the function calls each; src_recursive: the functions that can reach",
+           "   themselves in the call graph; nom_loop_combinators: is the body of that combinator in nom's source a loop",
+           "   that does not call itself *)",
+           "From Coq Require Import String List.", "Import ListNotations.", "Open Scope string_scope.", "",
+           "Definition src_rep_sites : list (string * list (string * nat)) :=", "  ["]
+    out.append(";\n".join("   (%s, [%s])" % (coq_str(n), "; ".join("(%s, %d)" % (coq_str(c), k) for c, k in cs)) for n, cs in table))
+    out.append("  ].\n")
+    out.append("Definition src_recursive : list string :=\n  [" + "; ".join(coq_str(n) for n in rec) + "].\n")
+    out.append("Definition nom_loop_combinators : list (string * bool) :=\n  [" +
+               "; ".join("(%s, %s)" % (coq_str(c), "true" if b else "false") for c, b in loops) + "].\n")
+    out.append("(* call graph, for the reader:")
+    for n, _ in table:
+        out.append("   %s -> %s" % (n, ", ".join(sorted(calls[n])) or "-"))
+    out.append("*)")
+    return "\n".join(out) + "\n"
+
+
 GENERATORS = {
     "fam/idl/coq/Generated/IdlConsts.v": gen_consts,
     "fam/idl/coq/Generated/IdlUnicode.v": gen_unicode,
+    "fam/idl/coq/Generated/IdlReps.v": gen_reps,
 }
 
 if __name__ == "__main__":
     repo = sys.argv[1] if len(sys.argv) > 1 else "/repo"
-    sys.stdout.write(gen_consts(repo))
+    sys.stdout.write(gen_reps(repo) if "--reps" in sys.argv else gen_consts(repo))
